@@ -100,6 +100,13 @@ def main(argv=None) -> int:
     seed = int(os.environ.get("VERIF_SEED", "1"))
     budget = QUICK_BUDGET if tier == "quick" else THOROUGH_BUDGET
     deadline = t0 + budget
+    # found/<ID>/ holds the shrunk cases of *this* run only (it is git-ignored scratch output)
+    found_dir = os.path.join(os.environ.get("VERIF_FOUND_DIR") or os.path.join(HERE, "found"), prop)
+    for old_file in glob.glob(os.path.join(found_dir, "found-*.json")):
+        try:
+            os.remove(old_file)
+        except OSError:
+            pass
 
     # ---- replay tier ---------------------------------------------------------------
     try:
